@@ -23,18 +23,18 @@ Definition pm_named (q : pm_query) (tys : list pm_type) : list pm_key :=
 
 (* [tol] = false: the statement's reading (filter true of the object alone);
    [tol] = true: tolerant of the known finding (filter true with `service` bound to some service) *)
-Definition pm_admit_g (tol : bool) (u : list pm_entry) (perm : pm_str) (inv : list pm_obj) (o : pm_obj) : bool :=
-  if tol then pm_spec_admit_any u perm inv o else pm_spec_admit u perm o.
+Definition pm_allow_g (tol : bool) (u : list pm_entry) (perm : pm_str) (inv : list pm_obj) (o : pm_obj) : bool :=
+  if tol then pm_spec_allow_any u perm inv o else pm_spec_allow u perm o.
 
-Definition pm_key_admitted (tol : bool) (u : list pm_entry) (perm : pm_str) (inv : list pm_obj) (k : pm_key) : bool :=
+Definition pm_key_allowed (tol : bool) (u : list pm_entry) (perm : pm_str) (inv : list pm_obj) (k : pm_key) : bool :=
   match pm_lookup inv (fst k) (snd k) with
-  | Some o => pm_admit_g tol u perm inv o
+  | Some o => pm_allow_g tol u perm inv o
   | None => false
   end.
 
 Definition pm_key_forbidden (tol : bool) (u : list pm_entry) (perm : pm_str) (inv : list pm_obj) (k : pm_key) : bool :=
   match pm_lookup inv (fst k) (snd k) with
-  | Some o => negb (pm_admit_g tol u perm inv o)
+  | Some o => negb (pm_allow_g tol u perm inv o)
   | None => false
   end.
 
@@ -54,26 +54,26 @@ Definition pm_oracle_q (tol : bool) (u : list pm_entry) (perm : pm_str) (tys : l
       && match pv_res ob with
          | None => true
          | Some keys =>
-             forallb (pm_key_admitted tol u perm inv) keys
+             forallb (pm_key_allowed tol u perm inv) keys
              && negb (existsb (pm_key_forbidden tol u perm inv) (pm_named q tys))
          end
   end.
 
-(* HasPermission + the objects its combined filter admits *)
+(* HasPermission + the objects its combined filter allows *)
 Definition pm_oracle_perm (u : list pm_entry) (perm : pm_str) (inv : list pm_obj) (has : bool)
-           (admitted : list pm_key) : bool :=
+           (allowed : list pm_key) : bool :=
   match perm with
   | [] => true
-  | _ :: _ => Bool.eqb has (pm_spec_has u perm) && forallb (pm_key_admitted false u perm inv) admitted
+  | _ :: _ => Bool.eqb has (pm_spec_has u perm) && forallb (pm_key_allowed false u perm inv) allowed
   end.
 
 (* joined objects that were serialised *)
 Definition pm_oracle_joins (u : list pm_entry) (inv : list pm_obj) (joined : list pm_key) : bool :=
-  forallb (fun k => pm_key_admitted false u (pm_query_perm (fst k)) inv k) joined.
+  forallb (fun k => pm_key_allowed false u (pm_query_perm (fst k)) inv k) joined.
 
-(* what the model says about HasPermission's filter over an inventory: admitted keys and keys whose
+(* what the model says about HasPermission's filter over an inventory: allowed keys and keys whose
    evaluation throws *)
-Definition pm_admits (u : list pm_entry) (perm : pm_str) (inv : list pm_obj) : list (pm_key * bool) :=
+Definition pm_allows (u : list pm_entry) (perm : pm_str) (inv : list pm_obj) : list (pm_key * bool) :=
   let '(found, pf) := pm_has_permission u perm in
   if found then
     flat_map (fun o => match pm_eval_opt pf None o with
